@@ -8,6 +8,7 @@
 package main
 
 import (
+	"bytes"
 	"context"
 	"errors"
 	"fmt"
@@ -470,6 +471,98 @@ func failedCallThenNext(id string, seed uint64) runner.Result {
 	return res
 }
 
+// holdEnc is an encoding whose Unmarshal takes its time: it notes what it was given, waits, and then
+// looks at its input again.
+type holdEnc struct {
+	entered chan struct{}
+	release chan struct{}
+	changed *[]string
+}
+
+func (holdEnc) Marshal(m drpc.Message) ([]byte, error) { return payload.Enc{}.Marshal(m) }
+func (h holdEnc) Unmarshal(b []byte, m drpc.Message) error {
+	before := append([]byte(nil), b...)
+	close(h.entered)
+	<-h.release
+	if !bytes.Equal(before, b) {
+		hd, _ := payload.Parse(before)
+		*h.changed = append(*h.changed, fmt.Sprintf("the message of rpc %d (%d bytes) changed under its decoder: now starts with %q", hd.Tag, len(before), clipBytes(b)))
+	}
+	return payload.Enc{}.Unmarshal(before, m)
+}
+
+func clipBytes(b []byte) []byte {
+	if len(b) > 24 {
+		return b[:24]
+	}
+	return b
+}
+
+// decodeOutlivesItsRPC: the handler of RPC 1 has a receive inside a slow decoder (on another goroutine)
+// when it returns; the client closes RPC 1 and starts RPC 2 on the connection. The bytes the decoder of
+// RPC 1 is reading belong to RPC 1 until it is done with them: nothing of RPC 2 may show up in them,
+// and RPC 2 gets its own answer.
+func decodeOutlivesItsRPC(id string, seed uint64) runner.Result {
+	r := &payload.SplitMix{S: seed}
+	cfg := prog.GenConfig(r, false)
+	cfg.Net.Cap = -1
+	var changed []string
+	enc := holdEnc{entered: make(chan struct{}), release: make(chan struct{}), changed: &changed}
+	size := payload.Pick(r, []int{20, 200, 3000})
+	handler := rig.HandlerFunc(func(stream drpc.Stream, rpc string) error {
+		if rpc == "/second" {
+			var m []byte
+			if err := stream.MsgRecv(&m, payload.Enc{}); err != nil {
+				return err
+			}
+			h, _ := payload.Parse(m)
+			out := payload.Make(h.Tag, 1, 0, 0, 10)
+			return stream.MsgSend(&out, payload.Enc{})
+		}
+		go func() {
+			var m []byte
+			stream.MsgRecv(&m, enc)
+		}()
+		<-enc.entered
+		return nil // with the receive still decoding
+	})
+	rg := rig.New(rig.Config{Net: cfg.Net, Client: cfg.Client, Server: cfg.Server}, handler)
+	defer rg.Teardown()
+	desc := fmt.Sprintf("%s | the handler of rpc 1 returns while its receive is inside a slow decoder (message of %d bytes); the client closes rpc 1 and runs rpc 2; then the decoder looks at its input again", cfg.Desc, size)
+	st, err := rg.Conn.NewStream(context.Background(), "/first", payload.Enc{})
+	if err != nil {
+		return runner.Inconcl(id, "NewStream: "+err.Error())
+	}
+	in := payload.Make(1, 0, 0, 0, size)
+	st.MsgSend(&in, payload.Enc{})
+	if s, _ := census.QuiesceOr(enc.entered, rig.Watchdog); s != "ready" {
+		close(enc.release)
+		return runner.Inconcl(id, "the decoder was not reached: "+desc)
+	}
+	census.Quiesce(rig.Watchdog)
+	st.Close()
+	in2 := payload.Make(2, 0, 0, 0, size/2)
+	var out []byte
+	second := rig.Go("second", func() (interface{}, error) {
+		return nil, rg.Conn.Invoke(context.Background(), "/second", payload.Enc{}, &in2, &out)
+	})
+	census.Quiesce(rig.Watchdog)
+	close(enc.release)
+	census.Quiesce(rig.Watchdog)
+	fails := append([]string(nil), changed...)
+	if len(fails) == 0 && second.Returned() && second.Err == nil {
+		if h, err := payload.Parse(out); err != nil || h.Tag != 2 {
+			fails = append(fails, fmt.Sprintf("rpc 2 got an answer that is not its own (tag %d, err %v)", h.Tag, err))
+		}
+	}
+	if len(fails) > 0 {
+		return runner.Violation(id, "isolation:bytes-of-another-rpc-inside-a-message-being-decoded", desc+"\n"+strings.Join(fails, "\n"))
+	}
+	res := runner.Hold(id, desc, true)
+	res.Events = 3
+	return res
+}
+
 // sentCh adapts a buffered notification channel to the closed-channel convention of QuiesceOr.
 func sentCh(c chan struct{}) <-chan struct{} {
 	out := make(chan struct{})
@@ -836,6 +929,11 @@ func gen(tier string, seed uint64) []runner.Scenario {
 		i := i
 		id := fmt.Sprintf("flush-parked/%d", i)
 		out = append(out, runner.Scenario{ID: id, Run: func() runner.Result { return flushParked(id, payload.Hash(seed, 0xC02F, uint64(i))) }})
+	}
+	for i := 0; i < n/10; i++ {
+		i := i
+		id := fmt.Sprintf("decode-outlives-its-rpc/%d", i)
+		out = append(out, runner.Scenario{ID: id, Run: func() runner.Result { return decodeOutlivesItsRPC(id, payload.Hash(seed, 0xC028, uint64(i))) }})
 	}
 	for i := 0; i < n/10; i++ {
 		i := i
